@@ -174,6 +174,9 @@ theorem adjMatrix_iterator_fuel (d : AdjMatrix) (s : AdjMatrix.IterState) (f₁ 
     (h₁ : AdjMatrix.μ d s < f₁) (h₂ : AdjMatrix.μ d s < f₂) :
     AdjMatrix.drain d f₁ s = AdjMatrix.drain d f₂ s := AdjMatrix.drain_fuel_irrelevant d s f₁ f₂ h₁ h₂
 
+/-- The linear-time evaluation the driver uses for big matrices lists the same sequence. -/
+theorem adjMatrix_arcs_fold (d : AdjMatrix) : AdjMatrix.arcsFold d = d.arcs := AdjMatrix.arcsFold_eq d
+
 /-- The `count_ones` sum is `AdjMatrix.size`. -/
 theorem adjMatrix_size_count_ones (d : AdjMatrix) : AdjMatrix.sizePop d = d.size := AdjMatrix.sizePop_eq d
 
